@@ -3,6 +3,25 @@
 HOOK_COMMITS = []   # filled as hook commits are made in /repo
 
 CHECKS = {
+    "C15": dict(
+        category="model_checking",
+        text=("NpyFile.tla: writer layout invariant for every dict length modulo 64 and the exact header bytes; reader decode of "
+              "every dtype/byte order/version/header spelling by exact positional arithmetic; both replayed on write_npy/read_npy "
+              "and `sfs view`, byte for byte and bit for bit."),
+        design_ref="DESIGN.md section 3 (C15)",
+        note=("Exhaustive over the listed matrix; values per type are boundary patterns (not all bit patterns). numpy's behaviour is "
+              "taken from the format document, numpy itself is not run. Trusted: TLC, Q.class, harness file assembly."),
+        technique="TLA+ file-layout model, TLC enumeration of the format matrix, exact expected bytes/values replayed on the implementation",
+    ),
+    "C16": dict(
+        category="fault_enumeration",
+        text=("Every truncation offset and every extension 1..16 of npy files over versions/itemsizes/shapes, and up to 3 token/"
+              "shape edits of text files, enumerated from the NpyFile/TextFile damage models (TLC checks the model reader rejects "
+              "them all) and applied to Array::read_npy, the spectrum reader and view/fold/stat."),
+        design_ref="DESIGN.md section 3 (C16)",
+        note=("Exhaustive per base file; base files are a bounded catalogue. Trusted: TLC, harness damage application."),
+        technique="TLA+ reader/damage model, TLC-checked rejection of every fault position, exhaustive fault application to the implementation",
+    ),
     "C01": dict(
         category="model_checking",
         text=('Create.tla without projection: TLC checks the spectrum equals the declarative per-record count for every scenario in the bound and that unselected samples never matter; every behaviour is replayed record by record on site::Reader and end to end on `sfs create` (exact stdout bytes).'),
